@@ -584,3 +584,6 @@ def install(mods):
         i.HMAC = SymHMAC
         i.unpack = unpack
         i.bytes, i.bytearray = sym_bytes, sym_bytearray
+    ic = mods.get('ikesacontroller')
+    if ic is not None:
+        ic.bytes = sym_bytes
